@@ -11,7 +11,8 @@ expressions on which the C05 theorems turn:
   k_cat__<Class>         numpy.concatenate([a, b])  (order of the latent blocks: OCS, family, MOGS)
   k_pfreq__<Class> / k_pfreq_den__<Class>   count / (ploidy * len(x))    (PAFD, PAU, MOGS; a quotient, not a rounded reciprocal)
   k_pau_lt / k_pau_gt / k_pau_het / k_pau_unavail,  k_mogs_*             (the binary64 threshold tests and the flag algebra)
-  k_<fam>_calc_tminor/thet/tmajor and k_<fam>_set_*                      (what the tfreq setter stores in which flag)
+  k_<fam>_calc_tminor/thet/tmajor, k_<fam>_flag_* and k_mogs_fix_*       (what the flag properties compute ON ACCESS from the target array held;
+                                                                          the tfreq setter stores the array and nothing derived from it)
   k_pafd_term__<Class>   mkrwt * |tfreq - pfreq|
   k_opv / k_gb_coef / k_gb_st / k_gb_sp                                  (max-type criteria)
   k_evalfn               (obj_wt * obj_trans(x, latent), ineqcv..., eqcv...) with the order of the returned triple
@@ -126,6 +127,36 @@ def find_setter(repo, rel, cls, prop):
     if len(out) != 1:
         raise P.Untranslatable("%s: expected exactly one setter of %s.%s, found %d" % (rel, cls, prop, len(out)))
     return out[0]
+
+
+def find_getter(repo, rel, cls, prop):
+    out = [n for n in class_node(repo, rel, cls).body if isinstance(n, ast.FunctionDef) and n.name == prop
+           and [ast.unparse(d) for d in n.decorator_list] == ["property"]]
+    if len(out) != 1:
+        raise P.Untranslatable("%s: expected exactly one @property %s.%s, found %d" % (rel, cls, prop, len(out)))
+    return out[0]
+
+
+def tfreq_uncached(repo, rel, cls, derived):
+    """the tfreq property of a mixin: the getter hands out self._tfreq, the setter stores the array and NOTHING derived from it
+    (the only attribute it assigns is self._tfreq = value), and no method of the class assigns one of the private attributes
+    `derived` (a flag cached anywhere would not follow an in-place update of the array)"""
+    g = find_getter(repo, rel, cls, "tfreq")
+    if src(P.the_return(g)) != "self._tfreq":
+        raise P.Untranslatable("%s.tfreq no longer returns self._tfreq" % cls)
+    st = find_setter(repo, rel, cls, "tfreq")
+    stores = [(src(t), src(n.value) if getattr(n, "value", None) is not None else None) for n in ast.walk(st) if isinstance(n, (ast.Assign, ast.AugAssign, ast.AnnAssign))
+              for t in (n.targets if isinstance(n, ast.Assign) else [n.target])]
+    if stores != [("self._tfreq", "value")]:
+        raise P.Untranslatable("%s.tfreq setter: expected the single store self._tfreq = value, found %s" % (cls, stores))
+    for n in ast.walk(class_node(repo, rel, cls)):
+        if isinstance(n, (ast.Assign, ast.AugAssign, ast.AnnAssign)):
+            for t in (n.targets if isinstance(n, ast.Assign) else [n.target]):
+                for a in ast.walk(t):
+                    if isinstance(a, ast.Attribute) and src(a) in derived:
+                        raise P.Untranslatable("%s caches %s (line %d): the flag would not follow the target array" % (cls, src(a), n.lineno))
+        if isinstance(n, ast.Call) and src(n.func) in ("setattr", "object.__setattr__"):
+            raise P.Untranslatable("%s uses setattr (line %d): cannot tell which attribute is stored" % (cls, n.lineno))
 
 
 def body_statements(fn):
@@ -327,14 +358,14 @@ def translate(repo, gen_dir):
                 e = elementwise_bool(P.the_return(g))
                 add("k_%s_calc_%s" % (fam, nm), [("tfreq", "Q")], "bool", P.to_coq(e, Q({"tfreq": "tfreq"}), "bool"),
                     "%s._calc_%s: return %s" % (mix, nm, src(P.the_return(g))))
-            st = find_setter(repo, D + f, mix, "tfreq")
+            tfreq_uncached(repo, D + f, mix, {"self._tminor", "self._thet", "self._tmajor"})
             for nm in ("tminor", "thet", "tmajor"):
-                e = P.the_assignment(st, "self._" + nm)
+                e = P.the_return(find_getter(repo, D + f, mix, nm))
                 if not (isinstance(e, ast.Call) and isinstance(e.func, ast.Attribute) and src(e.func.value) == "self"
                         and e.func.attr in ("_calc_tminor", "_calc_thet", "_calc_tmajor") and [src(a) for a in e.args] == ["self._tfreq"] and not e.keywords):
-                    raise P.Untranslatable("%s.tfreq setter: self._%s = %s" % (mix, nm, src(e)))
-                add("k_%s_set_%s" % (fam, nm), [("tfreq", "Q")], "bool", "(k_%s_calc_%s tfreq)" % (fam, e.func.attr[len("_calc_"):]),
-                    "%s.tfreq setter: self._%s = %s" % (mix, nm, src(e)))
+                    raise P.Untranslatable("%s.%s (property): return %s" % (mix, nm, src(e)))
+                add("k_%s_flag_%s" % (fam, nm), [("tfreq", "Q")], "bool", "(k_%s_calc_%s tfreq)" % (fam, e.func.attr[len("_calc_"):]),
+                    "%s.%s (property, computed on access): return %s" % (mix, nm, src(e)))
         if fam == "pau":
             for nm, par in (("p_ltmajor", "lt"), ("p_gtminor", "gt")):
                 e = P.the_assignment(fn, nm)
@@ -352,8 +383,7 @@ def translate(repo, gen_dir):
                 add("k_mogs_" + par, [("pfreq", "float")], "bool", P.to_coq(e, F({"pfreq": "pfreq"}), "bool"), "%s.latentfn: %s = %s" % (cls, nm, src(e)))
             benv = {"pfreq_major_islost": "major_lost", "pfreq_minor_islost": "minor_lost", "pfreq_heter_islost": "heter_lost",
                     "self.tfreq_fix_minor": "fix_minor", "self.tfreq_fix_major": "fix_major", "self.tfreq_fix_heter": "fix_heter",
-                    "minor_penalty": "minor_penalty", "major_penalty": "major_penalty", "heter_penalty": "heter_penalty",
-                    "self._tfreq_fix_minor": "fix_minor", "self._tfreq_fix_major": "fix_major"}
+                    "minor_penalty": "minor_penalty", "major_penalty": "major_penalty", "heter_penalty": "heter_penalty"}
             B = lambda e: P.to_coq(ew_bool(e), F({}, bool_env=benv), "bool")
             e = P.the_assignment(fn, "pfreq_heter_islost")
             add("k_mogs_heter_lost", [("major_lost", "bool"), ("minor_lost", "bool")], "bool", B(e), "%s.latentfn: pfreq_heter_islost = %s" % (cls, src(e)))
@@ -364,16 +394,14 @@ def translate(repo, gen_dir):
             e = P.the_assignment(fn, "allele_unavail")
             add("k_mogs_unavail", [(v, "bool") for v in ("minor_penalty", "major_penalty", "heter_penalty")], "bool", B(e), "%s.latentfn: allele_unavail = %s" % (cls, src(e)))
             mix = stem + "SelectionProblemMixin"
-            st = find_setter(repo, D + f, mix, "tfreq")
+            tfreq_uncached(repo, D + f, mix, {"self._tfreq_fix_minor", "self._tfreq_fix_major", "self._tfreq_fix_heter"})
             for nm in ("minor", "major"):
-                e = P.the_assignment(st, "self._tfreq_fix_" + nm)
-                add("k_mogs_fix_" + nm, [("tfreq", "Q")], "bool", P.to_coq(e, Q({"self._tfreq": "tfreq"}), "bool"), "%s.tfreq setter: self._tfreq_fix_%s = %s" % (mix, nm, src(e)))
-            e = P.the_assignment(st, "self._tfreq_fix_heter")
-            add("k_mogs_fix_heter", [("fix_minor", "bool"), ("fix_major", "bool")], "bool", B(e), "%s.tfreq setter: self._tfreq_fix_heter = %s" % (mix, src(e)))
-            for nm in ("minor", "major", "heter"):        # the public properties must hand out the attribute of the same name
-                g = [n for n in class_node(repo, D + f, mix).body if isinstance(n, ast.FunctionDef) and n.name == "tfreq_fix_" + nm]
-                if len(g) != 1 or src(P.the_return(g[0])) != "self._tfreq_fix_" + nm:
-                    raise P.Untranslatable("%s.tfreq_fix_%s no longer returns self._tfreq_fix_%s" % (mix, nm, nm))
+                e = P.the_return(find_getter(repo, D + f, mix, "tfreq_fix_" + nm))
+                add("k_mogs_fix_" + nm, [("tfreq", "Q")], "bool", P.to_coq(e, Q({"self._tfreq": "tfreq"}), "bool"),
+                    "%s.tfreq_fix_%s (property, computed on access): return %s" % (mix, nm, src(e)))
+            e = P.the_return(find_getter(repo, D + f, mix, "tfreq_fix_heter"))
+            add("k_mogs_fix_heter", [("fix_minor", "bool"), ("fix_major", "bool")], "bool", B(e),
+                "%s.tfreq_fix_heter (property, computed on access): return %s" % (mix, src(e)))
             a, b = concat_pair(P.the_assignment(fn, "out"), cls)
             add("k_cat__" + cls, [("A", "Type"), ("pau", "list A"), ("pafd", "list A")], "list A", "(app %s %s)" % (a, b),
                 "%s.latentfn: out = %s" % (cls, src(P.the_assignment(fn, "out"))))
